@@ -44,7 +44,7 @@ def labels(ctx, fam, M, *dgms):
         ctx.label("has_empty")
 
 
-s_value = st.fixed_dictionaries({"fam": diagram_family(count=2, min_size=0, max_size=12), "M": MS})
+s_value = st.fixed_dictionaries({"fam": diagram_family(count=2, min_size=0, max_size=12), "M": MS, "narrow": st.booleans()})
 
 
 def check_value(case, ctx):
@@ -53,7 +53,16 @@ def check_value(case, ctx):
     M = case["M"]
     labels(ctx, fam, M, A, B)
     ctx.nontrivial(len(A) > 0 and len(B) > 0 and len(A) != len(B))
-    v = sw(ctx, A, B, M)
+    if case.get("narrow") and A and B and all(float(x).is_integer() and abs(x) < 30000 for p in A + B for x in p):
+        # the same values stored in the narrowest integer dtype that holds them (uint8 / int16): b + d may exceed that dtype's range
+        flat = [x for p in A + B for x in p]
+        dt = np.uint8 if (min(flat) >= 0 and max(flat) <= 255) else np.int16
+        ctx.label("narrow_int_dtype:" + np.dtype(dt).name)
+        out = ctx.call(sliced_wasserstein, np.array(A, dtype=dt), np.array(B, dtype=dt), M)
+        ctx.require(np.ndim(out) == 0 and math.isfinite(float(out)), "not_finite", lambda: "sliced_wasserstein = %r" % (out,))
+        v = float(out)
+    else:
+        v = sw(ctx, A, B, M)
     ref = K.sliced_wasserstein(A, B, M)
     tol = 5e-6 * asum(A, B)
     ctx.require(abs(v - ref) <= tol, "value",
